@@ -215,12 +215,11 @@ def classify_hash_operand(rhs, fn_path):
 
 
 def _mentions(t, name):
-    if isinstance(t, tuple):
-        if t[0] == "field" and t[2] == name:
+    for x in hir.subterms(t):
+        if len(x) == 3 and x[0] == "field" and x[2] == name:
             return True
-        if t[0] == "var" and t[1] == name:
+        if len(x) == 2 and x[0] == "var" and x[1] == name:
             return True
-        return any(_mentions(x, name) for x in t[1:] if isinstance(x, tuple))
     return False
 
 
